@@ -5,13 +5,13 @@ import itertools
 from .. import cfgrun, cfgstream, core, schemafam as F
 
 RULE = ("all sequences up to the tier's length over {define n v, use n, include-of-a-suffix} with 3 names in mixed case "
-        "and values {literal, '', '$other', '$$other', '${other}x', ' padded '}, up to 2 include levels; each run twice "
+        "and values {literal, '', '$other', '$$other', '${other}x', '${OTHER}y', ' padded '}, uses written $name and ${Name}, up to 2 include levels; each run twice "
         "against one schema object; oracle = reference fold of the property statement (expand once with earlier "
         "definitions; redefinition accepted iff expanded value equal); non-trivial = at least one define and one use; "
         "distinct by sequence")
 
 NAMES = ["a", "B", "Ab"]
-VALUES = ["lit", "", "$b", "$$b", "${a}x", "  padded "]
+VALUES = ["lit", "", "$b", "$$b", "${a}x", "${B}y", "  padded "]
 
 
 def ref_subst(defs, s):
@@ -83,6 +83,8 @@ def render(ops, files, prefix="f"):
             lines.append("%define " + op[1] + (" " + op[2] if op[2] else ""))
         elif op[0] == "use":
             lines.append("k $" + op[1])
+        elif op[0] == "useb":
+            lines.append("k ${" + op[1] + "}")
         else:
             name = "%s%d.conf" % (prefix, len(files))
             files[name] = None
@@ -92,12 +94,12 @@ def render(ops, files, prefix="f"):
 
 
 def sequences(maxlen, rng, budget):
-    atoms = [("define", n, v) for n in NAMES for v in VALUES] + [("use", n) for n in NAMES]
+    atoms = [("define", n, v) for n in NAMES for v in VALUES] + [("use", n) for n in NAMES] + [("useb", n) for n in NAMES]
     # exhaustive up to length 2, then all sequences of the given length over a reduced atom set, then sampled
     for n in range(1, 3):
         yield from itertools.product(atoms, repeat=n)
     small = [("define", "a", "lit"), ("define", "A", "$$b"), ("define", "a", "$b"), ("define", "b", "zz"),
-             ("define", "B", ""), ("define", "a", "${a}x"), ("define", "Ab", "  padded "), ("use", "a"), ("use", "B"), ("use", "ab")]
+             ("define", "B", ""), ("define", "a", "${a}x"), ("define", "Ab", "  padded "), ("use", "a"), ("use", "B"), ("useb", "aB")]
     for n in range(3, maxlen + 1):
         if len(small) ** n <= budget:
             yield from itertools.product(small, repeat=n)
@@ -146,7 +148,7 @@ def run(ctx):
         exp = ref_run(c.meta["ops"])
         got = ("reject",) if c.out[0] == "cfg" else ("ok", list(c.cfg.k)) if c.out[0] == "ok" else tuple(c.out)
         ctx.count("expected:" + exp[0])
-        if any(o[0] == "define" for o in flatten(c.meta["ops"])) and any(o[0] == "use" for o in flatten(c.meta["ops"])):
+        if any(o[0] == "define" for o in flatten(c.meta["ops"])) and any(o[0] in ("use", "useb") for o in flatten(c.meta["ops"])):
             ctx.nontriv(tuple(c.lines) + tuple(sorted((c.files or {}).items()).__repr__()))
         if c.model is not None:
             m = ("reject",) if c.model[0] == "cfg" else ("ok",) if c.model[0] == "ok" else tuple(c.model[:2])
